@@ -104,6 +104,8 @@ CHECKS = {
    note="Trusted: go/ssa.", ref="4/C32"),
 }
 
+CODEC = set('C01 C02 C03 C04 C06 C07 C08 C09 C11 C12 C13 C14 C16 C17 C23 C24 C27 C31 C32 C33'.split())
+
 NA = {
  "C26": "quantifies over all API call sequences of two cooperating state machines plus a broker with end-to-end effects; no shape-level rule implies it. Its only structural necessary condition (mutual handler coverage) is C23-R2; the concrete mismatches named by its anchors are decided where their mechanism lives (C11-R2, C02).",
  "C34": "a wall-clock bound under an assumption about an external broker; every mechanism it rests on is a rule of C09 (zero keep-alive refused), C12 (sleep pinger) or C13 (broker close ends the session); the numeric bounds themselves are properties of timed histories that no static argument available here can bound.",
@@ -125,7 +127,7 @@ def main():
             "replay_cmd_template": "cat {path}",
             "engine": "bisqcheck",
             "level_claimed": {"category": c.get("level", "other"), "text": c["text"], "design_ref": "DESIGN.md section " + c["ref"]},
-            "level_note": c["note"],
+            "level_note": c["note"] + (" Rule RC re-files, for the packet types this property's statement reads or writes, the wire-format obligations decided by C21/C22's code (decoder = specification table, encoder = decoder, type tags, header form), because a rule about a decoded field only holds if the decoder reads that field faithfully." if pid in CODEC else ""),
             "technique": c["tech"],
         })
     na = []
